@@ -106,3 +106,28 @@ KFN void k_srcread_iter(const unsigned char* s, unsigned long avail, unsigned lo
     r->ret = source_reader<itsrc_t>::read(src, b, length);
     r->size = b.n; r->max_resize = b.max_resize; r->nresize = b.nresize; r->pos = src.position(); r->eof = src.eof(); r->max_growth = b.max_growth;
 }
+// ---- C03 K3.3: the Source concept every binary parser reads through (read / peek / ignore / read_span / read_chunk / eof / position) on the two in-repo
+// sources that can be lowered (bytes_source = one contiguous buffer, iterator_source = an iterator range refilled chunk by chunk)
+struct sbuf2 { typedef unsigned char value_type; unsigned char* p; unsigned long n; unsigned long cap;
+    unsigned long size() const { return n; } void clear() { n = 0; } void resize(unsigned long k) { n = k; } unsigned char& operator[](unsigned long i) { return p[i < cap ? i : cap - 1]; }
+    unsigned char* data() { return p; } const unsigned char* data() const { return p; } };
+struct opres { unsigned long count; unsigned char bytes[8]; unsigned eofflag; unsigned long pos; unsigned peek_eof; };
+template <class S> static inline void srcops(S& src, const unsigned* op, const unsigned long* len, unsigned nops, opres* r, unsigned char* scratch) {
+    for (unsigned k = 0; k < nops; ++k) {
+        opres& o = r[k]; o.count = 0; o.peek_eof = 0; for (unsigned i = 0; i < 8; ++i) o.bytes[i] = 0;
+        switch (op[k]) {
+            case 0: { unsigned char tmp[8]; unsigned long l = len[k] > 8 ? 8 : len[k]; o.count = src.read(tmp, l); for (unsigned i = 0; i < 8; ++i) if (i < o.count) o.bytes[i] = tmp[i]; break; }
+            case 1: { auto c = src.peek(); o.peek_eof = c.eof; o.count = c.eof ? 0 : 1; o.bytes[0] = c.eof ? 0 : c.value; break; }
+            case 2: { unsigned long before = src.position(); src.ignore(len[k]); o.count = src.position() - before; break; }
+            case 3: { sbuf2 b{scratch, 0, 16}; auto sp = src.read_span(len[k] > 8 ? 8 : len[k], b); o.count = sp.size(); for (unsigned i = 0; i < 8; ++i) if (i < sp.size()) o.bytes[i] = sp.data()[i]; break; }
+            default: { auto sp = src.read_chunk(); o.count = sp.size(); for (unsigned i = 0; i < 8; ++i) if (i < sp.size()) o.bytes[i] = sp.data()[i]; break; }
+        }
+        o.eofflag = src.eof(); o.pos = src.position();
+    }
+}
+KFN void k_srcops_bytes(const unsigned char* s, unsigned long n, const unsigned* op, const unsigned long* len, unsigned nops, opres* r, unsigned char* scratch) {
+    bytes_source src(jsoncons::span<const uint8_t>(s, n)); srcops(src, op, len, nops, r, scratch);
+}
+KFN void k_srcops_iter(const unsigned char* s, unsigned long n, unsigned long chunk, const unsigned* op, const unsigned long* len, unsigned nops, opres* r, unsigned char* scratch) {
+    itsrc_t src(s, s + n, chunk); srcops(src, op, len, nops, r, scratch);
+}
